@@ -416,6 +416,7 @@ def get_boundary_axis(
         if (
             isinstance(data, collections.abc.Sequence)
             and len(data) == 2
+            and not isinstance(data[0], BCBase)  # instances are kept for each side
             and data[0] == data[1]
         ):
             data = data[0]
